@@ -183,20 +183,20 @@ def pick_index(v, values, zero=0):
     return w % n
 
 
-def _arr_slot(label, values, lo, hi, conv=None, chunk=None):
+def _arr_slot(label, values, lo, hi, conv=None, chunk=None, attr="values"):
     """In-place element write; with layout >= 2 also whole-list assignment through the
     public `values` attribute (a fresh copy of the class default / a fresh full list)."""
 
     def setter(v):
-        vals = chunk.values if chunk is not None else values
+        vals = getattr(chunk, attr) if chunk is not None else values
         if CUR_LAYOUT >= 2 and chunk is not None and (v >> 3) % 16 in (0, 1):
             kind = (v >> 3) % 16
             default = getattr(type(chunk), "default", None)
             if kind == 0 and isinstance(default, list):
-                chunk.values = list(default)  # "restore the default curve"
+                setattr(chunk, attr, list(default))  # "restore the default curve / waveform"
                 return
             n = len(vals)
-            chunk.values = [(conv(pick_int(mix(v, j), lo, hi)) if conv else pick_int(mix(v, j), lo, hi)) for j in range(n)]
+            setattr(chunk, attr, [(conv(pick_int(mix(v, j), lo, hi)) if conv else pick_int(mix(v, j), lo, hi)) for j in range(n)])
             return
         i = pick_index(v, vals)
         x = pick_int(v >> 10, lo, hi)
@@ -213,7 +213,7 @@ def payload_slots(mod, session):
     t = type(mod).__name__
     s = []
     if t in ("Generator", "AnalogGenerator"):
-        s.append(_arr_slot("drawn_waveform.samples", mod.drawn_waveform.samples, -128, 127))
+        s.append(_arr_slot("drawn_waveform.samples", mod.drawn_waveform.samples, -128, 127, chunk=mod.drawn_waveform, attr="samples"))
     elif t == "Fmx":
         s.append(_arr_slot("custom_waveform", mod.custom_waveform.values, -32768, 32767, lambda x: f32(x / 32768.0), chunk=mod.custom_waveform))
     elif t == "MultiSynth":
